@@ -123,7 +123,7 @@ func c08r3(c *core.Ctx) {
 			if !ok {
 				return
 			}
-			if _, ok := core.FieldAddrOf(fa, tConn, "connection"); ok && !core.TypeIs(recvType(f), tConn) && f.Name() != "NewConnection" {
+			if _, ok := core.FieldAddrOf(fa, tConn, "connection"); ok && !core.TypeIs(recvType(f), tConn) && cn(f) != "NewConnection" {
 				c.Bad("raw-socket-escapes@"+fname(f), fa.Pos(), "the raw socket field of Connection is accessed outside Connection")
 			}
 		})
@@ -161,7 +161,7 @@ func c08r3(c *core.Ctx) {
 		if isTestFunc(p, f) || !core.IsLibraryPkg(pkgPathOf(f)) {
 			continue
 		}
-		c.Check(f.Name() == "NewConnection", "NewSession-caller@"+fname(f), e.Pos(), "sessions are created only by NewConnection", "a session is created outside NewConnection")
+		c.Check(cn(f) == "NewConnection", "NewSession-caller@"+fname(f), e.Pos(), "sessions are created only by NewConnection", "a session is created outside NewConnection")
 	}
 	if f := p.Func("hap", "(*session).Connection"); f != nil {
 		ok := returnsOnly(f, func(v ssa.Value) bool { _, ok := core.FieldLoad(v, mod+"/hap.session", "connection"); return ok })
@@ -235,7 +235,7 @@ func boolStr(b bool) string {
 // payloadWhole: f is Connection.Write, or every library caller passes one of its own parameters
 // (unsliced, call site not in a loop) and is itself payloadWhole.
 func payloadWhole(p *core.Program, f *ssa.Function, depth int) bool {
-	if f.Name() == "Write" && core.TypeIs(recvType(f), tConn) {
+	if cn(f) == "Write" && core.TypeIs(recvType(f), tConn) {
 		return true
 	}
 	if depth == 0 {
